@@ -150,6 +150,25 @@ theorem resolve_none {l : List OVal} {idx : Int} (h : idx = 0 ∨ idx > l.length
     StackSpec.resolve l idx = none := by
   unfold StackSpec.resolve; rw [if_neg (by omega), if_neg (by omega)]
 
+/-- the index arithmetic `base + idx - 1` of a positive index does not leave the range of a Go `int`
+    (it does for `idx > MaxInt64 - base + 1`: then the register number wraps around to a negative one). -/
+def IdxOK (base : Nat) (idx : Int) : Prop := idx > 0 → (base : Int) + idx - 1 ≤ maxInt
+
+/-- … for the index an operation carries (none for Push / Pop). -/
+def OpIdxOK (base : Nat) : StackOp → Prop
+  | .setTop i => IdxOK base i
+  | .insert _ i => IdxOK base i
+  | .remove i => IdxOK base i
+  | .replace i _ => IdxOK base i
+  | _ => True
+
+theorem wrapInt_id {x : Int} (h0 : 0 ≤ x) (h1 : x ≤ maxInt) : wrapInt x = x := by
+  unfold wrapInt
+  unfold maxInt at h1
+  omega
+
+theorem idxOK_nonpos (base : Nat) {idx : Int} (h : idx ≤ 0) : IdxOK base idx := fun h' => by omega
+
 theorem regGet_val {s : St} (hw : WF s) {i : Nat} (h : s.base + i < s.reg.top) {reg : Int}
     (hr : reg = (s.base : Int) + i) :
     regGet s.reg reg = .ok (.val ((abs s).getD i none)) := by
@@ -163,13 +182,15 @@ theorem regGet_val {s : St} (hw : WF s) {i : Nat} (h : s.base + i < s.reg.top) {
 
 /-! ### Get: reads inside the list give the element, reads outside give nil -/
 
-theorem get_refines {s : St} (hw : WF s) (idx : Int) (hidx : Generated.RegistryIndex < idx) :
+theorem get_refines {s : St} (hw : WF s) (idx : Int) (hidx : Generated.RegistryIndex < idx)
+    (hok : IdxOK s.base idx) :
     get s idx = .ok (.val (StackSpec.get (abs s) idx)) := by
   have hlen := abs_length s hw.top_le
   have hbl := hw.base_le
   unfold get currentLocalBase StackSpec.get
   by_cases h1 : idx > 0
   · rw [if_pos h1]
+    simp only [wrapInt_id (x := (s.base : Int) + idx - 1) (by omega) (hok h1)]
     by_cases h2 : (s.base : Int) + idx - 1 < s.reg.top
     · rw [if_pos h2, resolve_pos (by omega) (by omega)]
       exact regGet_val hw (by omega) (by omega)
@@ -244,13 +265,15 @@ theorem refines_of_regSet {s : St} (hw : WF s) {p : Nat} (hp : p < (abs s).lengt
     | error err => rw [hs, bind_err] at he; cases he; exact h2 _ hs
     | ok r => rw [hs, bind_ok] at he; cases he
 
-theorem replace_refines {s : St} (hw : WF s) (idx : Int) (v : OVal) (hidx : Generated.RegistryIndex < idx) :
+theorem replace_refines {s : St} (hw : WF s) (idx : Int) (v : OVal) (hidx : Generated.RegistryIndex < idx)
+    (hok : IdxOK s.base idx) :
     Refines s (replace s idx v) (StackSpec.replace (abs s) idx v) := by
   have hlen := abs_length s hw.top_le
   have hbl := hw.base_le
   unfold replace currentLocalBase StackSpec.replace
   by_cases h1 : idx > 0
   · rw [if_pos h1]
+    simp only [wrapInt_id (x := (s.base : Int) + idx - 1) (by omega) (hok h1)]
     by_cases h2 : (s.base : Int) + idx - 1 < s.reg.top
     · rw [if_pos h2, resolve_pos (by omega) (by omega)]
       exact refines_of_regSet hw (by omega) v (by omega)
@@ -269,7 +292,7 @@ theorem replace_refines {s : St} (hw : WF s) (idx : Int) (v : OVal) (hidx : Gene
 
 /-! ### index translation -/
 
-theorem indexToReg_cases {s : St} (hw : WF s) (idx : Int) :
+theorem indexToReg_cases {s : St} (hw : WF s) (idx : Int) (hok : IdxOK s.base idx) :
     (∃ p : Nat, StackSpec.resolve (abs s) idx = some p ∧ p < (abs s).length ∧ indexToReg s idx = (s.base : Int) + p ∧
         (idx > 0 → (p : Int) = idx - 1) ∧ (idx < 0 → (p : Int) = (abs s).length + idx)) ∨
     (StackSpec.resolve (abs s) idx = none ∧
@@ -280,6 +303,7 @@ theorem indexToReg_cases {s : St} (hw : WF s) (idx : Int) :
   unfold indexToReg currentLocalBase
   by_cases h1 : idx > 0
   · rw [if_pos h1]
+    simp only [wrapInt_id (x := (s.base : Int) + idx - 1) (by omega) (hok h1)]
     by_cases h2 : idx ≤ (abs s).length
     · left
       exact ⟨(idx - 1).toNat, resolve_pos (by omega) h2, by omega, by omega, by omega, by omega⟩
@@ -347,12 +371,12 @@ theorem refines_of_regSetTop {s : St} (hw : WF s) (n' : Nat) {t : Int} (ht : t =
     | error err => rw [hs, bind_err] at he; cases he; exact regSetTop_err hw.top_le (by omega) hs
     | ok r => rw [hs, bind_ok] at he; cases he
 
-theorem setTop_refines {s : St} (hw : WF s) (idx : Int) :
+theorem setTop_refines {s : St} (hw : WF s) (idx : Int) (hok : IdxOK s.base idx) :
     Refines s (setTop s idx) (StackSpec.setTop (abs s) idx) := by
   have hlen := abs_length s hw.top_le
   have hbl := hw.base_le
   unfold setTop currentLocalBase StackSpec.setTop
-  rcases indexToReg_cases hw idx with ⟨p, _, hp, hreg, hpos, hneg⟩ | ⟨_, ⟨hbig, hreg⟩ | ⟨hlow, hreg⟩⟩
+  rcases indexToReg_cases hw idx hok with ⟨p, _, hp, hreg, hpos, hneg⟩ | ⟨_, ⟨hbig, hreg⟩ | ⟨hlow, hreg⟩⟩
   · -- a valid index
     rw [hreg, if_neg (by omega)]
     by_cases h1 : idx > 0
@@ -451,12 +475,12 @@ theorem eraseIdx_last (l : List OVal) : l.eraseIdx (l.length - 1) = l.take (l.le
   · rfl
   · exact List.getElem?_eq_none (by omega)
 
-theorem remove_refines {s : St} (hw : WF s) (idx : Int) :
+theorem remove_refines {s : St} (hw : WF s) (idx : Int) (hok : IdxOK s.base idx) :
     Refines s (remove s idx) (StackSpec.remove (abs s) idx) := by
   have hlen := abs_length s hw.top_le
   have hbl := hw.base_le
   unfold remove currentLocalBase StackSpec.remove
-  rcases indexToReg_cases hw idx with ⟨p, hres, hp, hreg, _, _⟩ | ⟨hres, ⟨hbig, hreg⟩ | ⟨hlow, hreg⟩⟩
+  rcases indexToReg_cases hw idx hok with ⟨p, hres, hp, hreg, _, _⟩ | ⟨hres, ⟨hbig, hreg⟩ | ⟨hlow, hreg⟩⟩
   · rw [hreg, hres]
     simp only
     rw [if_neg (by omega), if_neg (by omega)]
@@ -595,12 +619,13 @@ def insertModelList (l : List OVal) (v : OVal) (idx : Int) : List OVal :=
   | some l' => l'
   | none => l.insertIdx 0 v
 
-theorem insert_refines {s : St} (hw : WF s) (v : OVal) (idx : Int) (hidx : idx ≤ (abs s).length + 1) :
+theorem insert_refines {s : St} (hw : WF s) (v : OVal) (idx : Int) (hidx : idx ≤ (abs s).length + 1)
+    (hok : IdxOK s.base idx) :
     Refines s (insert s v idx) (insertModelList (abs s) v idx) := by
   have hlen := abs_length s hw.top_le
   have hbl := hw.base_le
   unfold insert currentLocalBase insertModelList StackSpec.insert StackSpec.insertAt
-  rcases indexToReg_cases hw idx with ⟨p, hres, hp, hreg, _, _⟩ | ⟨hres, ⟨hbig, hreg⟩ | ⟨hlow, hreg⟩⟩
+  rcases indexToReg_cases hw idx hok with ⟨p, hres, hp, hreg, _, _⟩ | ⟨hres, ⟨hbig, hreg⟩ | ⟨hlow, hreg⟩⟩
   · rw [hreg, hres]
     simp only
     rw [if_neg (by omega)]
